@@ -315,3 +315,10 @@ pub mod verif_hooks_rotorib;
 #[cfg(feature = "verif-hooks")]
 #[path = "verif_hooks_reconfunits.rs"]
 pub mod verif_hooks_reconfunits;
+
+/// Verification hooks for the area UnitMetrics (feature `verif-hooks`,
+/// add-only); a child module because the runner and its fields are private
+/// here.
+#[cfg(feature = "verif-hooks")]
+#[path = "verif_hooks_unitmetrics.rs"]
+pub mod verif_hooks_unitmetrics;
